@@ -201,4 +201,58 @@ static void dom_edge(int r, int nper, int close, U64Vec *out) {
     for (size_t i = 0; i < s.n; i++) uv_push(out, s.v[i]);
     uv_free(&s);
 }
+
+// ---- IDX: hostile index alphabet. size 0 = small (~7k values), 1 = large
+static void dom_idx_bases(int large, U64Vec *b) {
+    static const int bcs_s[] = {0, 4, 14, 58, 117, 121}, bcs_l[] = {0, 1, 4, 14, 20, 38, 58, 63, 97, 117, 120, 121};
+    const int *bcs = large ? bcs_l : bcs_s;
+    int nb = large ? 12 : 6;
+    for (int bi = 0; bi < nb; bi++)
+        for (int res = 0; res <= 15; res += (large ? 1 : 3)) {
+            for (int pat = 0; pat < (large ? 5 : 3); pat++) {
+                int d[15];
+                for (int i = 0; i < res; i++)
+                    d[i] = pat == 0 ? 0 : pat == 1 ? (i == res - 1 ? 2 : 0) : pat == 2 ? 6 - (i % 5) : pat == 3 ? (i == 0 ? 5 : 0) : 3;
+                uint64_t h = spec_mk(res, bcs[bi], d);
+                if (spec_valid(h)) uv_push(b, h);
+                if (res == 0) break;
+            }
+        }
+    uv_sortuniq(b);
+}
+static void dom_idx(int large, U64Vec *out) {
+    U64Vec b = {0};
+    dom_idx_bases(large, &b);
+    for (size_t i = 0; i < b.n; i++) {
+        uint64_t h = b.v[i];
+        uv_push(out, h);
+        for (int x = 0; x < 64; x++) {
+            uv_push(out, h ^ (1ull << x));
+            if (large || i % 4 == 0)
+                for (int y = x + 1; y < 64; y += (large ? 1 : 5)) uv_push(out, h ^ (1ull << x) ^ (1ull << y));
+        }
+        for (int m = 0; m < 16; m++) {
+            uint64_t hm = (h & ~((uint64_t)15 << 59)) | ((uint64_t)m << 59);
+            uv_push(out, hm);
+            if (m == 1 || m == 2 || m == 4)
+                for (int rv = 0; rv < 8; rv++) uv_push(out, hm | ((uint64_t)rv << 56));
+        }
+        for (int r = 1; r <= 15; r++) {
+            uv_push(out, spec_set_digit(h, r, 7));
+            uv_push(out, spec_set_digit(h, r, 1));
+            uv_push(out, spec_set_digit(h, r, 0));
+        }
+        for (int bc = 118; bc < 128; bc++) uv_push(out, (h & ~((uint64_t)127 << 45)) | ((uint64_t)bc << 45));
+        for (int r = 0; r <= 15; r++) uv_push(out, (h & ~((uint64_t)15 << 52)) | ((uint64_t)r << 52));
+    }
+    uv_push(out, 0);
+    uv_push(out, ~0ull);
+    uv_push(out, 1);
+    uv_push(out, 1ull << 63);
+    uv_push(out, (1ull << 63) - 1);
+    uv_push(out, 0x0800000000000000ull);
+    uv_push(out, 0x08001fffffffffffull);
+    uv_free(&b);
+    uv_sortuniq(out);
+}
 #endif
